@@ -417,7 +417,62 @@ def check_C14(chk, tier):
         run_phase(chk, "kernels/d/vendor-blas", H + "h_kernels.c", kernel_cases(tier, "d"), ["C14."], prec="d", vendor=True, budget_s=1800, bounds="USE_VENDOR_BLAS path with reference BLAS")
 
 
-REGISTRY = {"C14": check_C14, "C10": check_C10, "C08": check_C08, "C18": check_C18, "C05": check_C05, "C06": check_C06, "C01": check_C01, "C02": check_C02, "C03": check_C03, "C04": check_C04}
+# ------------------------------------------------------------------------------------------------ C07 storage independence
+def scase(n, pat, colperm=0, permidx=0, tune="t122", symcols=-1, umode=0, fill2=1, lwork2=0, woff2=0, ilu=0):
+    t = T[tune]
+    return (n, hex(pat), colperm, permidx) + tuple(t[:5]) + (symcols, umode, fill2, lwork2, woff2, ilu)
+
+
+def storage_cases(tier, prec="d"):
+    cs = []; q = tier == "quick"; cplx = prec in "zc"
+    small = [(2, 15), (3, 511), (3, C.band(3, 1, 1)), (3, C.arrow(3))] if not cplx else [(2, 15), (3, C.band(3, 1, 1))]
+    for n, pat in small:
+        for tn in (("t122", "t212", "tn1n") if q else tuple(T)):
+            for ilu in (0, 1):
+                sc = -1 if not cplx and not (ilu and n == 3 and pat == 511) else 1 << (n - 1)
+                cs.append(scase(n, pat, tune=tn, symcols=sc, fill2=1, ilu=ilu, umode=0 if cplx or ilu else 1))
+                for lw, wo in ((700, 0), (1001, 4), (1400, 4), (4000, 0)): cs.append(scase(n, pat, tune=tn, symcols=1 << (n - 1), fill2=2, lwork2=lw, woff2=wo, ilu=ilu))
+    big = [(5, C.dense(5, 5)), (6, C.band(6, 2, 2)), (7, C.dense(7, 7)), (10, C.band(10, 4, 1))] if q else [(5, C.dense(5, 5)), (6, C.band(6, 2, 2)), (7, C.dense(7, 7)), (9, C.arrow(9)), (10, C.dense(10, 10)), (10, C.band(10, 4, 1))]
+    if cplx and q: big = big[:2]
+    for n, pat in big:
+        for tn in ("tn1n", "t122", "t4_1_8_2d"):
+            for ilu in (0, 1):
+                for f2 in (1, 2): cs.append(scase(n, pat, tune=tn, symcols=1 << (n - 1), fill2=f2, ilu=ilu))
+                for lw, wo in ((3000, 0), (5003, 4), (9000, 4), (20000, 0)): cs.append(scase(n, pat, tune=tn, symcols=3 << (n - 2), fill2=1, lwork2=lw, woff2=wo, ilu=ilu))
+    return list(dict.fromkeys(cs))
+
+
+def check_C07(chk, tier):
+    chk.assumptions += COMMON_ASSUME + ["layer T: the two runs' stored values are compared as operation DAGs (identical term => identical bits under any IEEE rounding); integer arrays compared exactly",
+                                        "second regime: fill estimate 1 or 2 (in-flight expansions) or a caller workspace of several lengths and both alignments; workspaces too small for the problem are C08's subject and skipped here"]
+    for prec in precs(tier):
+        run_phase(chk, "storage-regimes/" + prec, H + "h_storage.c", storage_cases(tier, prec), ["C07."], prec=prec, budget_s=200 if tier == "quick" else 1800, monitor_ids=("ws_viol",),
+                  bounds="n<=3 symbolic, n<=10 with symbolic trailing columns; complete and incomplete LU; fill estimate 1/2 vs generous; caller workspace lengths {700..20000} x alignment {0,4}",
+                  qtimeout_ms=(3000 if prec in "zc" else 8000) if tier == "quick" else 60000, env=CPLX_ENV if prec in "zc" else None, validate_samples=0)
+
+
+# ------------------------------------------------------------------------------------------------ C20 Fortran bridge
+def bcase(n, pat1, pat2=None, tune="t122", symcols=-1, nsolve=2, nrhs=1, ldbx=0, two=0):
+    return (n, hex(pat1), hex(pat2 if pat2 is not None else pat1)) + tuple(T[tune]) + (symcols, nsolve, nrhs, ldbx, two)
+
+
+def check_C20(chk, tier):
+    chk.assumptions += COMMON_ASSUME + ["the bridge is C code (FORTRAN/c_fortran_?gssv.c) and is driven directly, as a Fortran caller would (all arguments by reference, 1-based index arrays)",
+                                        "reference for 'the same solution the C simple driver would return': ?gssv with default options on copies of the same A and B; compared exactly (zero difference in exact arithmetic; term identity noted)"]
+    q = tier == "quick"
+    for prec in (["d", "z"] if q else ["d", "z", "s", "c"]):
+        cplx = prec in "zc"; cs = []
+        for n, pat in [(1, 1), (2, 15), (2, 0b1101), (3, 511), (3, C.band(3, 1, 1)), (3, C.arrow(3))]:
+            sc = -1 if (not cplx and n <= 2) else (1 << (n - 1))
+            cs.append(bcase(n, pat, symcols=sc, nsolve=2, nrhs=1)); cs.append(bcase(n, pat, C.band(n, 1, 0) if n > 1 else 1, symcols=1 << (n - 1), nsolve=2, nrhs=2, ldbx=2, two=1))
+        for n, pat in [(5, C.dense(5, 5)), (6, C.band(6, 2, 2)), (10, C.band(10, 4, 1))] + ([] if q else [(9, C.arrow(9)), (10, C.dense(10, 10))]):
+            for tn in ("tn1n", "t122"): cs.append(bcase(n, pat, C.arrow(n), tune=tn, symcols=0, nsolve=3, nrhs=3, ldbx=3, two=1)); cs.append(bcase(n, pat, tune=tn, symcols=1 << (n - 1), nsolve=1, nrhs=2, ldbx=1))
+        run_phase(chk, "bridge/" + prec, H + "h_bridge.c", cs, ["C20."], prec=prec, budget_s=200 if q else 1500, extra_src=(REPO + "/FORTRAN/c_fortran_%sgssv.c" % prec,),
+                  bounds="n<=3 symbolic A, n<=10 concrete/trailing-symbolic A with symbolic B; factor, <=3 solves (nrhs<=3, ldb<=n+3), free; optional second live handle",
+                  qtimeout_ms=(3000 if cplx else 8000) if q else 60000, env=CPLX_ENV if cplx else None, validate_samples=0)
+
+
+REGISTRY = {"C20": check_C20, "C07": check_C07, "C14": check_C14, "C10": check_C10, "C08": check_C08, "C18": check_C18, "C05": check_C05, "C06": check_C06, "C01": check_C01, "C02": check_C02, "C03": check_C03, "C04": check_C04}
 
 
 def run(pid, tier):
